@@ -277,6 +277,9 @@ def validate_traces(module, cfg, traces, shards=NPROC, max_events_per_shard=4000
         for idx, rc, done, fails, gen, tail, wall in ex.map(_run_trace_shard, jobs):
             lm, ln = line_maps[idx]
             if done != ln:
+                # a JVM that could not start or was killed (memory pressure from parallel shards): one serial retry
+                idx, rc, done, fails, gen, tail, wall = _run_trace_shard(jobs[idx])
+            if done != ln:
                 raise MachineryError("trace batch not fully consumed (rc=%s, done=%s of %s):\n%s" % (rc, done, ln, tail))
             states += gen
             for tid, line, clause in fails:
